@@ -6,7 +6,7 @@ COOKIE = {"pkg": "pkg/sessions/cookie", "overlay": "cookie"}
 PROPS = {
     "C09": {
         "drivers": [MAIN],
-        "rule": "also: a server-side entry that runs out (or a store error) between a request's first load and its reload under the refresh lock; sessions holding a refresh token and an access token that outlives cookie-refresh (the age is reset only by a refresh the provider was asked for); and: both session stores of the real proxy x lifetimes {90 s, 1 h, 168 h} x cookie-refresh {off, 30 s} x session ages "
+        "rule": "also: saves through the real go-redis client on miniredis with single commands (SET, SETEX, EXPIRE, PEXPIRE ...) failing on the wire: no entry without its lifetime; a server-side entry that runs out (or a store error) between a request's first load and its reload under the refresh lock; sessions holding a refresh token and an access token that outlives cookie-refresh (the age is reset only by a refresh the provider was asked for); and: both session stores of the real proxy x lifetimes {90 s, 1 h, 168 h} x cookie-refresh {off, 30 s} x session ages "
                 "straddling cookie-expire by 1..3 s and the 5-minute future bound, plus Max-Age, store TTL and a refresh event; and: "
                 "cookies minted with SignedValue at issue times on a grid straddling each threshold "
                 "(cookie-expire, +5 min skew, zero) by 0..3 s for 6 lifetimes, plus random ages and odd "
@@ -17,7 +17,7 @@ PROPS = {
                         "the clock is read before and after each implementation call; a case whose model "
                         "answer differs between the two readings is skipped as ambiguous"],
         "trusted_base": ["time.Time arithmetic assumed exact for |ts| < 2^60 (no int64 wrap in time.Unix)"],
-        "level_text": "c09_nonrefreshing_total_lifetime (a provider that cannot refresh: whatever the sequence of requests and validation answers, nothing later than login + cookie-expire + cookie-refresh is honoured, because of the expiry redeemCode's fallback gives the session), c09_redeem_fallbacks; Theorems c09_window / c09_rejected_after_lifetime / c09_rejected_if_future hold for every MAC function, "
+        "level_text": "c09_store_write_carries_lifetime (both Redis client wrappers, regenerated, write an entry with ONE Set call that carries the expiration); c09_nonrefreshing_total_lifetime (a provider that cannot refresh: whatever the sequence of requests and validation answers, nothing later than login + cookie-expire + cookie-refresh is honoured, because of the expiry redeemCode's fallback gives the session), c09_redeem_fallbacks; Theorems c09_window / c09_rejected_after_lifetime / c09_rejected_if_future hold for every MAC function, "
                       "cookie string, clock value and non-zero lifetime of the Gallina model of encryption.Validate (skew regenerated "
                       "from source); c09_issue_time (the signed timestamp is the session's CreatedAt), c09_maxage / c09_maxage_seconds "
                       "(Max-Age of every part = configured lifetime in seconds), c09_store_ttl; the model is run against "
@@ -111,7 +111,7 @@ PROPS["C02"] = {
 
 PROPS["C18"] = {
     "drivers": [MAIN, dict(COOKIE, prop="C18")],
-    "rule": "also: histories in which a save and a clear share one response (the clear's deletions compared with the model given the names just set); slow logins: the proxy's clock moved 2 s .. 16 min between start and callback x cookie-refresh x cookie-expire x csrf-per-request; cookie options given as flags (comma-separated, repeated, mixed), configuration file and environment, loaded by main's loadConfiguration; and: (1) cookies.MakeCookieFromOptions on option combinations {secure, httponly, samesite x4, path x2, 7 domain sets of 0-3 nested "
+    "rule": "also: clears while the store refuses the delete (the browser is still told to drop its ticket); callbacks delivered as a form POST (state and code in the body, in the query, split between the two, another login's state, none); histories in which a save and a clear share one response (the clear's deletions compared with the model given the names just set); slow logins: the proxy's clock moved 2 s .. 16 min between start and callback x cookie-refresh x cookie-expire x csrf-per-request; cookie options given as flags (comma-separated, repeated, mixed), configuration file and environment, loaded by main's loadConfiguration; and: (1) cookies.MakeCookieFromOptions on option combinations {secure, httponly, samesite x4, path x2, 7 domain sets of 0-3 nested "
             "domains, 3 names, 4 expirations} x 17 hosts (exact, sub-domain, look-alike, unrelated, with port, IPv6, upper case, trailing dot, "
             "empty) x X-Forwarded-Host {absent, matching, unrelated} x reverse-proxy on/off: the serialised cookie is compared byte for byte "
             "with the model; (2) a monitor on every Set-Cookie of complete flows (unauthenticated, start, callback, request, refresh, bad "
@@ -121,7 +121,7 @@ PROPS["C18"] = {
     "assumptions": ["net/http Cookie.String() is modelled (Model/Cookies.v: attribute order, Domain validity rule, Max-Age rendering)",
                     "configured domains are sorted longest-first (validation does it with sort.Slice; equal lengths excluded in the sweep)"],
     "trusted_base": ["reference Domain rule written in the driver (vRefDomain) from the property text, independent of repository code"],
-    "level_text": "c18_cookie_flags_pinned (the cookie flags regenerated from cookieFlagSet on every run - name, pflag constructor, default: cookie-domain is a comma-separated, repeatable string slice); c18_cookie_surface_pinned / c18_cookie_surface_reviewed (every http.Cookie literal, http.SetCookie call, Set-Cookie header name, cookie-attribute write and constructor call in ALL non-test sources, regenerated on every run, is the reviewed list, in which every emission hands over a cookie that came out of the constructor); c18_attrs, c18_domain (for every host string and every longest-first domain list: longest configured suffix of the port-less "
+    "level_text": "c18_domains_sorted_once (the single statement that sorts a cookie-domain list, regenerated: c18_domain's sortedness premise), c18_option_tags_regular (158 option tags regenerated and regular), c18_cookie_flags_pinned (the cookie flags regenerated from cookieFlagSet on every run - name, pflag constructor, default: cookie-domain is a comma-separated, repeatable string slice); c18_cookie_surface_pinned / c18_cookie_surface_reviewed (every http.Cookie literal, http.SetCookie call, Set-Cookie header name, cookie-attribute write and constructor call in ALL non-test sources, regenerated on every run, is the reviewed list, in which every emission hands over a cookie that came out of the constructor); c18_attrs, c18_domain (for every host string and every longest-first domain list: longest configured suffix of the port-less "
                   "host, else the shortest, else none), c18_delete, c18_session_parts and c18_size (<= 4096) are proved for all inputs of the "
                   "Gallina model of MakeCookieFromOptions / GetCookieDomain / makeSessionCookie; the model is compared byte for byte with the "
                   "constructor on a sweep and an oracle monitors every Set-Cookie of complete flows on every run.",
@@ -170,7 +170,7 @@ PROPS["C08"] = {
 
 PROPS["C07"] = {
     "drivers": [MAIN],
-    "rule": "also: the allowed-groups rule under ten provider configurations (oidc, keycloak-oidc with and without roles, adfs, gitlab with projects / gitlab-group, entra-id, keycloak with and without keycloak-group) x 7 group sets x 3 endpoints; the nine legacy header options given as command-line flags (all 512 combinations), configuration file and environment, loaded by main's loadConfiguration and compared with the model's lists; and: (1) middleware.NewRequestHeaderInjector / NewResponseHeaderInjector on 8 structured configurations (mixed-case names, preserve "
+    "rule": "also: negated rules anchored at the end of the path; 16 concurrent auth-only requests of four sessions under three query constraints; session values that are format strings, templates or header syntax when taken as anything but data; the allowed-groups rule under ten provider configurations (oidc, keycloak-oidc with and without roles, adfs, gitlab with projects / gitlab-group, entra-id, keycloak with and without keycloak-group) x 7 group sets x 3 endpoints; the nine legacy header options given as command-line flags (all 512 combinations), configuration file and environment, loaded by main's loadConfiguration and compared with the model's lists; and: (1) middleware.NewRequestHeaderInjector / NewResponseHeaderInjector on 8 structured configurations (mixed-case names, preserve "
             "on/off, two entries for one name, prefix, basic-auth encoding, secret values, several values per header, unknown and time "
             "claims) x 6 sessions (nil, every field empty or multi-valued, commas inside values) x 5 client header sets spoofing every "
             "configured name in lower/upper/mixed case, repeated lines and comma-joined values: the header multimap seen by the next "
@@ -213,7 +213,7 @@ PROPS["C06"] = {
 
 PROPS["C16"] = {
     "drivers": [MAIN],
-    "rule": "also: list-valued and odd-case forwarding header values; configurations with api routes (the 401-JSON / sign-in-page classification must not follow X-Forwarded-Uri); and: pairs of requests to 10 endpoints (protected path, skip-auth path, auth-only, start, sign_in, sign_out, callback, userinfo, "
+    "rule": "also: X-Auth-Request-Redirect and Accept held fixed in both requests of each pair; a cookie-domain configuration with redirect targets under the cookie domain that are not on the whitelist; list-valued and odd-case forwarding header values; configurations with api routes (the 401-JSON / sign-in-page classification must not follow X-Forwarded-Uri); and: pairs of requests to 10 endpoints (protected path, skip-auth path, auth-only, start, sign_in, sign_out, callback, userinfo, "
             "OPTIONS) x 4 configurations (plain; trusted IPs + skip routes + whitelist + nested cookie domains; force-https; insecure cookie + "
             "skip-provider-button) with reverse-proxy off: the request without forwarding headers against the same request with each of 13 "
             "forwarding/client-IP headers, all of them, and mixed subsets; the decision projection (status, upstream hit, Location, OAuth "
@@ -232,7 +232,7 @@ PROPS["C16"] = {
 
 PROPS["C11"] = {
     "drivers": [MAIN, dict(COOKIE, prop="C11")],
-    "rule": "also: a foreign-host request (junk cookie, login start) placed before every sign-out of the nested-domain configurations; sign-out presenting a cookie the proxy can no longer use (signature older than cookie-expire, previous secret, truncated, foreign) for both stores; wire-level faults on every command of the sign-out request through the real go-redis client on miniredis; and: histories on the real proxy: a stale session (so that the next request refreshes and re-saves) of size small/large, k in {0,1} "
+    "rule": "also: cookie-expire=0 (cookies without Max-Age) histories; a foreign-host request (junk cookie, login start) placed before every sign-out of the nested-domain configurations; sign-out presenting a cookie the proxy can no longer use (signature older than cookie-expire, previous secret, truncated, foreign) for both stores; wire-level faults on every command of the sign-out request through the real go-redis client on miniredis; and: histories on the real proxy: a stale session (so that the next request refreshes and re-saves) of size small/large, k in {0,1} "
             "requests before sign-out (k=0: the refresh happens inside the sign-out request), refresh growing or shrinking the session "
             "across the split threshold, sign-out via GET/POST with/without rd, 4 store/domain configurations (cookie store, server-side "
             "store, nested cookie domains), and for the server-side store the delete failing before/after taking effect; then the jar and "
@@ -298,7 +298,7 @@ OIDC_ASSUME = ["go-oidc / go-jose (signature against the issuer's key set with a
                "claims are typed JSON with integer numbers; strings inside nested arrays/objects avoid characters encoding/json escapes"]
 PROPS["C04"] = {
     "drivers": [MAIN],
-    "rule": "also: short-lived tokens minted AFTER the proxy started, presented before and after their exp (own and extra issuer); extra JWT issuers whose configured audience contains '=' x token audiences on every prefix boundary; and: 7 provider configurations (default with an extra audience, custom audience claim, allow-unverified, custom e-mail claim, discovery, "
+    "rule": "also: a backend logout URL configured in the fault sweep's environment; several extra JWT issuers in one configuration (one discovery-less, one with a key set of its own, both orders): a token is accepted iff signed by a key of the issuer it names; short-lived tokens minted AFTER the proxy started, presented before and after their exp (own and extra issuer); extra JWT issuers whose configured audience contains '=' x token audiences on every prefix boundary; and: 7 provider configurations (default with an extra audience, custom audience claim, allow-unverified, custom e-mail claim, discovery, "
             "profile endpoint, skip-issuer) x ~40 tokens varying one clause at a time from a valid baseline (key/alg: other key, alg none, "
             "HS256 keyed with the public key; issuer; audience string/list/extra/wrong/empty list/number/object/list with number/null/"
             "absent; expiry; email_verified true/false/absent/'false'/0/1/'true'/garbage; claim types) plus combinations, each on all three "
@@ -315,7 +315,7 @@ PROPS["C04"] = {
 }
 PROPS["C05"] = {
     "drivers": [MAIN],
-    "rule": "also: the byte-identical ID token of a completed login answered to later logins (same and other browser; oidc, keycloak-oidc); the challenge method in 12 spellings (what is sent declares a method the challenge matches; the verifier in clear only under 'plain'); and: two overlapping logins per browser x provider behaviours {echo the hashed nonce, the other login's, empty, absent, null, the raw "
+    "rule": "also: the legacy OIDC switches (skip-nonce, skip-issuer-verification) given as flags, configuration file and environment and loaded by main's loadConfiguration; the byte-identical ID token of a completed login answered to later logins (same and other browser; oidc, keycloak-oidc); the challenge method in 12 spellings (what is sent declares a method the challenge matches; the verifier in clear only under 'plain'); and: two overlapping logins per browser x provider behaviours {echo the hashed nonce, the other login's, empty, absent, null, the raw "
             "nonce, a number, a prefix, case-flipped} x code-challenge method {none, S256, plain} x skip-nonce x csrf-per-request on the real "
             "proxy with an in-memory provider that records the verifier presented at redemption; the CSRF cookie is decrypted with the "
             "standard library to obtain the raw nonces and verifier for the leak scan and the challenge check; non-trivial = all",
@@ -335,7 +335,7 @@ PROPS["C05"] = {
 PROVIDERS = {"pkg": "providers", "overlay": "providers"}
 PROPS["C14"] = {
     "drivers": [dict(MAIN, timeout=3000), dict(PROVIDERS, prop="C14")],
-    "rule": "also: the provider sweep's login pipeline mirrors the callback (enrich, validate, authorise) with 'a token response without an access token gives no session'; GitHub / Bitbucket logins whose e-mail lookup answers well-formed JSON without a usable e-mail under three e-mail-domain configurations (compared with the model's admission rule); a Google provider with a group restriction (Admin SDK redirected to the in-process provider) in the provider sweep, with 'an error status at an endpoint a refresh reads extends no session'; and: every identity-provider call position of the login (token endpoint, profile endpoint for a missing claim and for email_verified, "
+    "rule": "also: refresh answers the provider reports as malformed (opaque / truncated access token at Keycloak-OIDC) must not be persisted; the provider sweep's login pipeline mirrors the callback (enrich, validate, authorise) with 'a token response without an access token gives no session'; GitHub / Bitbucket logins whose e-mail lookup answers well-formed JSON without a usable e-mail under three e-mail-domain configurations (compared with the model's admission rule); a Google provider with a group restriction (Admin SDK redirected to the in-process provider) in the provider sweep, with 'an error status at an endpoint a refresh reads extends no session'; and: every identity-provider call position of the login (token endpoint, profile endpoint for a missing claim and for email_verified, "
             "key retrieval), bearer (key retrieval) and refresh (token endpoint; expired and invalid old sessions) flows x 16 response kinds "
             "(5xx, 4xx, connection reset, timeout, empty body, truncated JSON, non-JSON, JSON array, missing id_token / access_token, "
             "id_token of wrong type / garbage, oversized body, wrongly typed expires_in) x 13 wrongly typed claims, on both stores; the three "
@@ -351,7 +351,7 @@ PROPS["C14"] = {
 BASIC = {"pkg": "pkg/authentication/basic", "overlay": "basic"}
 PROPS["C20"] = {
     "drivers": [dict(BASIC, race=True), dict(MAIN, race=True)],
-    "rule": "also: a watchdog that reports validations and reloads that stop completing (deadlock); and: binaries built with the race detector: 2 reloaders cycling 7 htpasswd file versions (entry added / removed / password changed / two "
+    "rule": "also: an inotify queue overflow (more events than fs.inotify.max_queued_events while a reload is held up) followed by a real update; a watchdog that reports validations and reloads that stop completing (deadlock); and: binaries built with the race detector: 2 reloaders cycling 7 htpasswd file versions (entry added / removed / password changed / two "
             "malformed versions in between) against 6 (16 in thorough) validating goroutines for 3 s (40 s), and the same for the "
             "authenticated-e-mails allow-list (5 versions, one with a CSV parse error); every answer is checked against the set of versions "
             "in force between the start and the end of the call; after the reloaders stop every validation must reflect the final contents; "
@@ -361,7 +361,7 @@ PROPS["C20"] = {
                     "fsnotify delivery is not modelled: the reload functions are called directly after rewriting the file",
                     "a deferred Unlock would be recorded at the defer site by the translator (none exists in the modelled functions)"],
     "trusted_base": ["translator go/xlate/sync.go (event programs from the Go AST)", "the Go race detector and scheduler for the stress run"],
-    "level_text": "c20_rearm_then_reload_safe (the file watch under any sequence of writes, replacements and event-loop steps: re-arming before reloading never loses an update; the neighbouring orders are refuted), c20_watcher_remove_branch_pinned (that order regenerated from pkg/watcher/watcher.go); c20_serial_reloads_publish_final (reloads run by one event loop: once a reload that read the final contents has published, the published contents are the file's; refuted for overlapping reloads), c20_watcher_serial (every call of the reload callback in the regenerated pkg/watcher/watcher.go sits in the event loop); c20_drf (for ANY event programs passing the static lock discipline, ANY number of goroutines and ANY interleaving: no race "
+    "level_text": "c20_watcher_loop_pinned (only the done channel ends the watcher's event loop: regenerated); c20_rearm_then_reload_safe (the file watch under any sequence of writes, replacements and event-loop steps: re-arming before reloading never loses an update; the neighbouring orders are refuted), c20_watcher_remove_branch_pinned (that order regenerated from pkg/watcher/watcher.go); c20_serial_reloads_publish_final (reloads run by one event loop: once a reload that read the final contents has published, the published contents are the file's; refuted for overlapping reloads), c20_watcher_serial (every call of the reload callback in the regenerated pkg/watcher/watcher.go sits in the event loop); c20_drf (for ANY event programs passing the static lock discipline, ANY number of goroutines and ANY interleaving: no race "
                   "state is reachable; inductive invariant over the RWMutex transition system), c20_generated_well_locked (the programs "
                   "REGENERATED from htpasswd.go / validator.go on this run pass the discipline, by computation), c20_generated_drf, "
                   "c20_snapshot (one pointer read per validation; published maps never mutated), c20_failed_reload (one publication per reload, "
@@ -371,7 +371,7 @@ PROPS["C20"] = {
 
 PROPS["C17"] = {
     "drivers": [dict(MAIN, timeout=3000)],
-    "rule": "also: sibling paths of the proxy's own exact endpoints (/robots.txt.bak, /ping/, /readyz ...); a websocket-upgrade variant of every request and upstream URIs that carry a path; and: the real proxy (real upstream.NewProxy and httputil.ReverseProxy) in front of recording HTTP servers on loopback: 4 upstream sets "
+    "rule": "also: allow-query-semicolons (the environment mirrors the server's handler wrapping); sibling paths of the proxy's own exact endpoints (/robots.txt.bak, /ping/, /readyz ...); a websocket-upgrade variant of every request and upstream URIs that carry a path; and: the real proxy (real upstream.NewProxy and httputil.ReverseProxy) in front of recording HTTP servers on loopback: 4 upstream sets "
             "(nested and sibling prefixes, exact paths without trailing slash, rewrite rules with capture groups and query additions, static "
             "upstreams, pass-host-header off) x raw-path proxying on/off x 37 paths (percent-encoded slashes, dots, spaces, plus signs, "
             "semicolons, UTF-8 raw and encoded) x queries x methods GET/POST/PUT/DELETE with bodies up to 64 KiB (1 MiB in thorough) and "
@@ -397,7 +397,7 @@ PROPS["C17"] = {
 
 PROPS["C19"] = {
     "drivers": [dict(MAIN, timeout=3000), dict(PROVIDERS, prop="C19")],
-    "rule": "also: 44 option values in unusual spellings (cookie_samesite, cookie_name, cookie_path, proxy_prefix, code_challenge_method, whitelist_domain, cookie_domain): what validation accepts is served 16 cookie-setting and -deleting requests each; every claim also injected through a basicAuthPassword source; and: grammar-based mutation of whole raw requests (request target over every endpoint with 31 query variants incl. state/code/rd/allowed_* "
+    "rule": "also: the REAL upstream handlers under 10 per-upstream option sets x 5 targets x 7 upgrade-header sets x 4 methods; 44 option values in unusual spellings (cookie_samesite, cookie_name, cookie_path, proxy_prefix, code_challenge_method, whitelist_domain, cookie_domain): what validation accepts is served 16 cookie-setting and -deleting requests each; every claim also injected through a basicAuthPassword source; and: grammar-based mutation of whole raw requests (request target over every endpoint with 31 query variants incl. state/code/rd/allowed_* "
             "values, ~70 Cookie header variants built from this proxy's own session, stale-session and CSRF cookies, 21 Authorization "
             "variants incl. valid/mutated bearer tokens and basic credentials, 22 forwarding / client-IP / Accept / upgrade header sets, "
             "methods, hosts, remote addresses, form bodies): one-dimension sweeps plus 2500 (40000 in thorough) random combinations for each "
